@@ -321,6 +321,12 @@ func (l *LogTap) Debugf(format string, v ...interface{}) {
 	}
 }
 
+// SetScan installs (or removes) the per-line scanner.
+func (l *LogTap) SetScan(f func(line string)) { l.mu.Lock(); l.Scan = f; l.mu.Unlock() }
+
+// SetKeep switches line retention on or off.
+func (l *LogTap) SetKeep(b bool) { l.mu.Lock(); l.Keep = b; l.mu.Unlock() }
+
 // Take returns and forgets the kept lines.
 func (l *LogTap) Take() []string {
 	l.mu.Lock()
